@@ -65,6 +65,19 @@ func tryDecode(typ reflect.Type, data []byte) (decoded bool, stage string, pval 
 		stage = "string"
 		_ = s.String()
 	}
+	if _, ok := p.Interface().(*ovsdb.DatabaseSchema); ok {
+		// the same text as a schema file, the way a server program loads it
+		stage = "schema-from-file"
+		if f, err := os.CreateTemp("", "c19-schema-*.json"); err == nil {
+			defer os.Remove(f.Name())
+			defer f.Close()
+			if _, err := f.Write(data); err == nil {
+				if _, err := f.Seek(0, 0); err == nil {
+					_, _ = ovsdb.SchemaFromFile(f)
+				}
+			}
+		}
+	}
 	return decoded, stage, nil, ""
 }
 
